@@ -99,6 +99,7 @@ pub fn primary_property(kind: &str, armed_panics: bool) -> &'static str {
         "foreign-value" | "type-confusion" => "C12",
         "panic" | "thread-panic" => "C13",
         "cache" => "C16",
+        "std-arc" => "C02",
         "access" => "C17",
         "post-panic" => "C18",
         _ => "C13",
